@@ -127,7 +127,7 @@ package model
 //@ func NewScaledNumberType qf
 //@   spec KF() float64
 //@   spec D() int
-//@   requires dom: 0 <= D() && D() <= 4 && fintegral(KF()) && flt(fabs(KF()), tofp(1048576))
+//@   requires dom: 0 <= D() && D() <= 4 && fintegral(KF()) && flt(fabs(KF()), tofp(tier(2048, 1048576)))
 //@   requires val0: D() == 0 ==> value == KF()
 //@   requires val1: D() == 1 ==> value == fdiv(KF(), tofp(10))
 //@   requires val2: D() == 2 ==> value == fdiv(KF(), tofp(100))
@@ -135,16 +135,16 @@ package model
 //@   requires val4: D() == 4 ==> value == fdiv(KF(), tofp(10000))
 //@   axiom (D() == 0 ==> indexbyte(fmtfloat(value), 46) == 0 - 1) && (D() > 0 ==> indexbyte(fmtfloat(value), 46) > 0 - 1 && len(fmtfloat(value)) - indexbyte(fmtfloat(value), 46) - 1 == D())
 //@   ensures[C19] exact-d0: D() == 0 ==> i2f(*result.Number) == KF()
-//@   ensures[C19] exact-d1: D() == 1 ==> i2f(*result.Number) == KF() && *result.Scale == 0 - 1
-//@   ensures[C19] exact-d2: D() == 2 ==> i2f(*result.Number) == KF() && *result.Scale == 0 - 2
-//@   ensures[C19] exact-d3: D() == 3 ==> i2f(*result.Number) == KF() && *result.Scale == 0 - 3
-//@   ensures[C19] exact-d4: D() == 4 ==> i2f(*result.Number) == KF() && *result.Scale == 0 - 4
+//@   ensures[C19] exact-d1: D() == 1 ==> i2f(*result.Number) == KF() && *result.Scale == ite(KF() == tofp(0), 0, 0 - 1)
+//@   ensures[C19] exact-d2: D() == 2 ==> i2f(*result.Number) == KF() && *result.Scale == ite(KF() == tofp(0), 0, 0 - 2)
+//@   ensures[C19] exact-d3: D() == 3 ==> i2f(*result.Number) == KF() && *result.Scale == ite(KF() == tofp(0), 0, 0 - 3)
+//@   ensures[C19] exact-d4: D() == 4 ==> i2f(*result.Number) == KF() && *result.Scale == ite(KF() == tofp(0), 0, 0 - 4)
 //@   modifies nothing
 
 //@ func (*ScaledNumberType).GetValue qf
 //@   spec KF() float64
 //@   spec D() int
-//@   requires m != nil && m.Number != nil && m.Scale != nil && i2f(*m.Number) == KF() && *m.Scale == 0 - D() && 0 <= D() && D() <= 4 && fintegral(KF()) && flt(fabs(KF()), tofp(1048576))
+//@   requires m != nil && m.Number != nil && m.Scale != nil && i2f(*m.Number) == KF() && *m.Scale == 0 - D() && 0 <= D() && D() <= 4 && fintegral(KF()) && flt(fabs(KF()), tofp(tier(2048, 1048576)))
 //@   ensures[C19] roundtrip-d0: D() == 0 ==> result == KF()
 //@   ensures[C19] roundtrip-d1: D() == 1 ==> result == fdiv(KF(), tofp(10))
 //@   ensures[C19] roundtrip-d2: D() == 2 ==> result == fdiv(KF(), tofp(100))
